@@ -49,7 +49,7 @@ def judge(rec, variants):
                 problem = ("outcome", "expected a merge error, got the document %s" % absdoc.concretise(got, "flow").strip())
             if problem:
                 if exp["info"]:
-                    out.append(("info", None, None, None))
+                    out.append(("info", problem[0] + (":" + problem[1][:150] if problem[0] == "crash" else ""), None, None))
                 else:
                     lk, rk = rec["l"][0]["k"], rec["r"][0]["k"]
                     sig = "%s:%s<-%s:%s" % (problem[0], lk, rk, _dims(rec, cfgname))
@@ -86,6 +86,100 @@ def _work(items):
     return [judge(rec, v) for rec, v in items]
 
 
+def _plain(doc):
+    """Anchors are not C05's subject: aliases become plain copies."""
+    return [dict(n, anchor="", alias=0) for n in doc]
+
+
+def _derive(rng, doc):
+    """A right-hand document related to the left one: a copy with scalars changed, members dropped / added."""
+    import copy
+    from harness import absdoc, randdocs
+    tree = absdoc.tree_of(doc)
+
+    def walk(t):
+        if t["k"] == "s":
+            if rng.random() < 0.3:
+                t["t"], t["v"] = rng.choice([("int", "7"), ("str", "zz"), ("str", "a"), ("null", ""), ("bool", "true")])
+            return
+        i = 0
+        while i < len(t["kids"]):
+            r = rng.random()
+            if r < 0.15:
+                del t["kids"][i]
+                if t["k"] == "map":
+                    del t["keys"][i]
+                continue
+            if t["k"] != "set":          # members of a Set stay distinct strings
+                walk(t["kids"][i])
+            i += 1
+        if rng.random() < 0.4:
+            new = absdoc.tree_of(_plain(randdocs.rand_doc(rng, max_nodes=5, max_depth=2)))
+            if t["k"] == "map":
+                k = {"t": "str", "v": rng.choice(randdocs.KEYS)}
+                if k not in t["keys"]:
+                    pos = rng.randint(0, len(t["kids"]))
+                    t["keys"].insert(pos, k)
+                    t["kids"].insert(pos, new)
+            elif t["k"] == "seq":
+                t["kids"].insert(rng.randint(0, len(t["kids"])), new if rng.random() < 0.5 else
+                                 {"k": "s", "t": "int", "v": str(rng.randint(0, 3)), "kids": [], "keys": []})
+    t = copy.deepcopy(tree)
+    walk(t)
+    return absdoc.table_of(t)
+
+
+def random_pairs(ctx, n_pairs, per_pair):
+    """C->S beyond the bound: seeded random pairs x random configurations; TLC (Batch_Merge) says what MergeDocs defines."""
+    import random
+    from harness import randdocs
+    rng = random.Random(ctx.seed + 5)
+    H, A, O, S = ["deep", "left", "right"], ["all", "left", "right", "unique"], ["all", "deep", "left", "right", "unique"], ["left", "right", "unique"]
+    recs = []
+    for i in range(n_pairs):
+        l = _plain(randdocs.rand_doc(rng, max_nodes=14, max_depth=3))
+        r = _plain(_derive(rng, l) if rng.random() < 0.6 else randdocs.rand_doc(rng, max_nodes=12, max_depth=3))
+        for _ in range(per_pair):
+            recs.append({"id": len(recs), "l": l, "r": r, "h": rng.choice(H), "a": rng.choice(A), "o": rng.choice(O), "s": rng.choice(S), "am": "stop"})
+    exp = {}
+    for part in [recs[i:i + 600] for i in range(0, len(recs), 600)]:
+        rin, rout = ctx.path("rnd_%d.in.json" % part[0]["id"]), ctx.path("rnd_%d.out.json" % part[0]["id"])
+        with open(rin, "w") as fh:
+            json.dump(part, fh)
+        core.run_tlc(ctx, "Batch_Merge", "Batch_Merge.cfg", env={"RECORDS_IN": rin, "VERDICTS_OUT": rout}, workers=1,
+                     name="rnd_%d" % part[0]["id"], timeout=3600)
+        with open(rout) as fh:
+            for o in json.load(fh):
+                exp[o["id"]] = o
+        os.remove(rin)
+        os.remove(rout)
+    items = []
+    for r in recs:
+        e = exp[r["id"]]
+        rec = {"key": "rnd%d" % r["id"], "l": r["l"], "r": r["r"],
+               "group": {"res": {"ok": e["ok"], "info": e["info"], "out": e["out"]}, "cfgs": ["%s/%s/%s/%s" % (r["h"], r["a"], r["o"], r["s"])]}}
+        items.append((rec, [("block", False)]))
+    total = info = nontrivial = 0
+    crashes, crash_ex = {}, {}
+    for n, out in querycorpus.pmap(_work, items, chunk=100):
+        total += n
+        for sig, desc, rp, _ in out:
+            if sig == "info":
+                info += 1
+                if desc and desc.startswith("crash"):
+                    crashes[desc.split(" @ ")[-1]] = crashes.get(desc.split(" @ ")[-1], 0) + 1
+                    crash_ex.setdefault(desc.split(" @ ")[-1], desc)
+            else:
+                ctx.violation("random:" + sig, desc, rp)
+    for rec, _ in items:
+        res = rec["group"]["res"]
+        if res["ok"] and res["out"] not in (rec["l"], rec["r"]):
+            nontrivial += 1
+    return {"random_pairs": n_pairs, "random_merges": total, "random_nontrivial": nontrivial, "random_informational": info,
+            "random_merge_errors_expected": sum(1 for rec, _ in items if not rec["group"]["res"]["ok"]),
+            "random_informational_crashes": crashes, "random_informational_crash_examples": crash_ex}
+
+
 def run(ctx):
     cfgs = ["MC_Merge_q.cfg"] if ctx.quick else ["MC_Merge_t.cfg", "MC_Merge_all.cfg"]
     recs = []
@@ -113,6 +207,11 @@ def run(ctx):
         pairs.add(rec["key"])
         if rec["group"]["res"]["ok"] and rec["group"]["res"]["out"] not in (rec["l"], rec["r"]):
             nontrivial += len(rec["group"]["cfgs"])
+    rnd = random_pairs(ctx, 500 if ctx.quick else 6000, 3)
+    total += rnd["random_merges"]
+    nontrivial += rnd["random_nontrivial"]
+    info += rnd["random_informational"]
+    ctx.coverage.update(rnd)
     ctx.informational = info
     ctx.coverage.update({
         "evaluations": total, "distinct_nontrivial": nontrivial, "pairs": len(pairs), "result_groups": len(recs),
